@@ -10,7 +10,10 @@ CONSTANT MaxDepth
 FailKinds == {"assert", "nil", "index", "index_empty", "zerodiv", "overflow", "remove", "remove_empty", "key_strindex",
               "zerodiv_assign", "zerorem_assign", "zerodiv_elem", "assert_sameline", "nil_sameline",
               "substring_range", "substring_reversed", "delete_range", "delete_reversed", "insert_range", "radix_range",
-              "nil_elem", "nil_field"}
+              "nil_elem", "nil_field",
+              \* the same range errors on a receiver of more than 32 bytes with multi-byte characters around byte 32 (whatever
+              \* the report quotes of the receiver, it is still a report)
+              "substring_range_long", "delete_range_long", "insert_range_long", "substring_reversed_long"}
 Positions == {"plain", "inif", "inwhile"}
 LevelKinds == {"fn", "method", "callback"}
 
@@ -27,6 +30,7 @@ FT == "fn(int) -> int"
 
 (* the failing construct on one source line, after multi-byte text (positions count characters) *)
 OneLine(st) == [k |-> "if", c |-> Bin("!=", S("größe 日本"), S("x")), t |-> <<st>>, e |-> <<>>, haselse |-> FALSE, elif |-> FALSE, oneline |-> TRUE]
+LongS == S("aaaaaaaaaaaaaaaaaaaaaaaaaaaaaaaóóó日本語bbbbbbbbbb")      \* 31 one-byte characters, then two-byte and three-byte ones
 OpAssign(target, op, e) == [k |-> "assign", target |-> target, op |-> op, e |-> e]
 FailCore ==
     CASE kind = "assert_sameline" -> <<OneLine(Assert(Bin("==", V("d"), I(12345))))>>
@@ -46,6 +50,10 @@ FailCore ==
       [] kind = "delete_range" -> <<Let("s", S("ab")), Print(MCall(V("s"), "delete", <<I(1), Bin("+", V("d"), I(2))>>))>>
       [] kind = "delete_reversed" -> <<Let("s", S("abcdef")), Print(MCall(V("s"), "delete", <<V("d"), I(1)>>))>>
       [] kind = "insert_range" -> <<Let("s", S("ab")), Print(MCall(V("s"), "insert", <<S("x"), V("d")>>))>>
+      [] kind = "substring_range_long" -> <<Let("s", LongS), Print(MCall(V("s"), "substring", <<I(0), Bin("+", V("d"), I(500))>>))>>
+      [] kind = "substring_reversed_long" -> <<Let("s", LongS), Print(MCall(V("s"), "substring", <<Bin("+", V("d"), I(30)), I(1)>>))>>
+      [] kind = "delete_range_long" -> <<Let("s", LongS), Print(MCall(V("s"), "delete", <<I(1), Bin("+", V("d"), I(500))>>))>>
+      [] kind = "insert_range_long" -> <<Let("s", LongS), Print(MCall(V("s"), "insert", <<S("x"), Bin("+", V("d"), I(500))>>))>>
       [] kind = "radix_range" -> <<Let("s", S("11")), Print(MCall(V("s"), "parse_int_radix", <<Bin("*", V("d"), I(20))>>))>>
       [] kind = "assert" -> <<Assert(Bin("==", V("d"), I(12345)))>>
       [] kind = "nil" -> <<LetT("o", "int?", Nil), Print(Get(V("o")))>>
